@@ -158,19 +158,20 @@ def run(ctx):
             dist["modes"]["corpus/" + mode] = dist["modes"].get("corpus/" + mode, 0) + 1
             _classify(ctx, mode, cenv, r, dist)
     plan = [("pool", n, {}), ("pool", n // 2, {"VRT_STRATEGY": "pct"}), ("hold", n // 8, {}),
+            ("wide", n // 8, {"VRT_STEP_LIMIT": "600000"}),
             ("inplace", n // 4, {}), ("newthread", n // 4, {})]
     for mode, cnt, extra in plan:
         env = dict(ENV)
         env.update(extra)
         runs = ctx.econc(exe, drv, [mode], seed0, cnt, env=env)
-        ctx.log("mode %s%s: %d runs" % (mode, "/pct" if extra else "", len(runs)))
-        dist["modes"][mode + ("/pct" if extra else "")] = len(runs)
+        ctx.log("mode %s%s: %d runs" % (mode, "/pct" if "VRT_STRATEGY" in extra else "", len(runs)))
+        dist["modes"][mode + ("/pct" if "VRT_STRATEGY" in extra else "")] = len(runs)
         for r in runs:
             dist["verdicts"][r["verdict"].split()[0]] = dist["verdicts"].get(r["verdict"].split()[0], 0) + 1
             dist["max_trace"] = max(dist["max_trace"], len(r["lines"]))
             ok = _classify(ctx, mode, env, r, dist)
             lines = r["lines"]
-            if mode in ("pool", "hold"):
+            if mode in ("pool", "hold", "wide"):
                 for k in ("W", "L", "G", "steal", "klass", "dtor", "wait", "linger"):
                     v = _hdr(r, k)
                     dist[k][v] = dist[k].get(v, 0) + 1
